@@ -2,24 +2,13 @@ package main
 
 import (
 	"fmt"
+	"math"
 
-	"github.com/golang/geo/s2"
+	"github.com/golang/geo/s1"
 )
 
-func try(name string, f func()) {
-	defer func() {
-		if r := recover(); r != nil {
-			fmt.Printf("%-30s PANIC: %v\n", name, r)
-		}
-	}()
-	f()
-}
 func main() {
-	p := s2.FullPolygon()
-	pt := s2.PointFromCoords(1, 0, 0)
-	c := s2.CellFromCellID(s2.CellIDFromFace(0))
-	try("ContainsPoint", func() { fmt.Println("ContainsPoint", p.ContainsPoint(pt)) })
-	try("ContainsCell", func() { fmt.Println("ContainsCell", p.ContainsCell(c)) })
-	try("IntersectsCell", func() { fmt.Println("IntersectsCell", p.IntersectsCell(c)) })
-	try("Contains", func() { fmt.Println("Contains", p.Contains(s2.PolygonFromLoops([]*s2.Loop{s2.LoopFromCell(c)}))) })
+	i := s1.Interval{Lo: -3, Hi: math.Float64frombits(0x3ff0000000000001)}
+	e := i.Expanded(math.Float64frombits(0x3ff243f6a8885a2e))
+	fmt.Println(e, e.Contains(-3), e.IsFull())
 }
